@@ -6,6 +6,18 @@ props = [json.loads(l)["id"] for l in open(os.path.join(ROOT, "properties.jsonl"
 
 TV = "TLA+ specification + TLC trace validation of recorded implementation behaviour"
 CHECKS = {
+ "C01": dict(
+  category="model_checking",
+  text="Every frame description of a covering design over the builder's input space (every payload length 0..242, all types x flag combinations, FOpts 0..20, port classes, 16/32-bit counter boundaries, both software crypto variants, refusal classes at their boundaries, JoinRequest, JoinAccept with every DLSettings byte/RxDelay/CFList type; thorough adds 45k seeded random descriptions) is built by the real code and the bytes are compared by TLC with Codec!BuildDataBytes / JoinRequestBytes / JoinAcceptPlain, an independent TLA+ transcription of the LoRaWAN 1.0.x layout, AES-128 (FIPS-197) and AES-CMAC (RFC 4493) that shares nothing with lora-rs or RustCrypto.",
+  note="Trusted: Aes.tla/Cmac.tla/Codec.tla (pinned by standard known answers as TLC ASSUMEs), TLC, the recorder. Not exhaustive: the input space is sampled by a covering design plus seeded random fill.",
+  technique=TV + " (Aes.tla, Cmac.tla, Codec.tla, CodecTrace.tla)",
+  design="DESIGN.md §6 C01"),
+ "C02": dict(
+  category="model_checking",
+  text="Every parse / validate_mic / check_mic_and_decrypt_in_place / decrypt_in_place / JoinAccept decode call on (a) every frame built in C01's design (round trip), (b) bit-level mutations of them, (c) wrong/missing keys and counters whose halves do or do not match the wire, (d) random strings of every length 0..255, is recorded with its complete result and final buffer and validated by TLC against Codec.tla: authentic iff StructOk and the independently computed MIC matches, exposed fields and plaintext equal the reference decoder's, buffer untouched on any data-frame failure, double decrypt is the identity.",
+  note="Trusted: as C01. Error kinds are not compared (the property does not fix them).",
+  technique=TV + " (Codec.tla, CodecTrace.tla)",
+  design="DESIGN.md §6 C02"),
  "C15": dict(
   category="model_checking",
   text="Exhaustive over the finite domain (8 SF x 10 BW): every implementation's LDRO decision (airtime calculator, SX126x, SX1276, SX1272, LR11xx) and the LDRO bit decoded from the SPI bytes each driver writes are recorded and validated by TLC against Modulation!Ldro (symbol time >= 16.38 ms, exact rational comparison), plus mutual agreement.",
